@@ -146,7 +146,8 @@ class Ctx:
         def mk(ds):
             return CFDivisor(G, [(self.names[i], ds[i]) for i in range(n)])
         how = r.choice(["negneg", "neg", "rmul", "rmul", "sum", "diff", "apply0", "moves", "transfer", "scale1"]
-                       + (["deepcopy", "fromdict", "cfgcopy", "cfgcopy"] if self.scn.get("op") in ("ewd", "greedy", "lap", "dhar") else []))
+                       + (["deepcopy", "fromdict", "cfgcopy", "cfgcopy"] if self.scn.get("op") in ("ewd", "greedy", "lap", "dhar") else [])
+                       + (["deepcopy", "fromdict", "fromdict"] if self.scn.get("op") in ("rank", "api") else []))
         if how == "deepcopy":
             # the same chips on an equal but distinct graph object (the analysis still receives G)
             return copy.deepcopy(mk(degs))
@@ -314,6 +315,19 @@ def op_ewd(scn):
                 out["trace"] = "ALIASED"
             D.lending_move(c.names[-1])
             red.borrowing_move(c.names[0])
+        if orient is not None and c.n >= 2 and WARM.get("phase") != 1:
+            # ... and of the returned orientation: flip one of its edges and look at the recorded steps
+            def osnaps():
+                return [c.orient_pairs(h["orientation"].graph, h["orientation"]) for h in viz.history if h.get("orientation") is not None]
+            ok1, before = call(osnaps)
+            pairs = c.orient_pairs(G, orient)
+            if ok1 and pairs:
+                a, b = pairs[0]
+                call(orient.set_orientation, Vertex(c.names[b]), Vertex(c.names[a]), OrientationState.SOURCE_TO_SINK)
+                ok2, after = call(osnaps)
+                call(orient.set_orientation, Vertex(c.names[a]), Vertex(c.names[b]), OrientationState.SOURCE_TO_SINK)
+                if not ok2 or before != after:
+                    out["trace"] = "ORIENT-ALIASED"
         qs = [h["q"] for h in viz.history if h["q"] is not None]
         out["q"] = c.index(qs[0]) if qs else None
     else:
